@@ -4,6 +4,8 @@
 -/
 import PicoSVG.Proofs.PathLex
 import PicoSVG.Spec.PathGrammar
+import PicoSVG.Proofs.LexP
+import PicoSVG.Proofs.SepP
 
 set_option linter.unusedSectionVars false
 namespace PicoSVG.C10
@@ -27,6 +29,19 @@ theorem explode_flatten (k : Nat) (hk : 0 < k) (cmd : Char) (args : List Arg)
     ((explode k cmd args).map (·.2)).flatten = args ∧
     ∀ e ∈ explode k cmd args, e.2.length = k ∧ (e.1 = cmd ∨ e.1 = implicitRepeat cmd) :=
   PathLex.explode_flatten k hk cmd args h
+
+/-- C10-f: argument tokens without separators, each followed by one `,` or space (how the printer joins them), are split
+    back into exactly those tokens, in order -/
+theorem splitSep_join (ts : List (List Char × Char))
+    (h : ∀ p ∈ ts, p.1 ≠ [] ∧ p.1.all (fun c => !isSep c) = true ∧ isSep p.2 = true) :
+    splitSep (SepP.joinToks ts) = ts.map (·.1) := SepP.splitSep_join ts h
+
+/-- C10-e (the converse of C10-a): every well-formed decimal number — sign, digits, optional fraction, optional exponent —
+    followed by text that cannot continue it (end, separator, command letter) is matched in full, as one token: what the
+    printer writes as a number is read back as that number's lexeme -/
+theorem matchFloat_complete (n : LexP.NumLex) (rest : List Char) (hn : n.ok = true) (hr : LexP.restOK rest = true) :
+    matchFloat (n.chars ++ rest) = some (n.chars, rest) := LexP.matchFloat_complete n rest hn hr
+
 
 /-! tie to the source: the regular expressions and tables the scanners stand for -/
 theorem gen_cmd_re : Gen.cmdRe = ("([mzlhvcsqtaMZLHVCSQTA])", 32) := by decide
